@@ -29,6 +29,9 @@ type Shared struct {
 	Graphics [][]byte
 	Palette  [64]color.RGBA
 	Options  []decode.DecodeOption
+	// Stops: a stop list shared by every caller of the gradient helpers; its offsets are not in
+	// increasing order (what that paints is the renderer's business - the list is an input)
+	Stops    []generate.GradientStop
 	PathData string
 }
 
@@ -74,6 +77,7 @@ func NewShared() *Shared {
 		b, _ := e.Bytes()
 		s.Graphics = append(s.Graphics, append([]byte(nil), b...))
 	}
+	s.Stops = []generate.GradientStop{{Offset: 0.75, Color: color.RGBA{0xff, 0, 0, 0xff}}, {Offset: 0.25, Color: color.Gray{0x80}}, {Offset: 1, Color: color.RGBA{0, 0, 0x40, 0x40}}, {Offset: 0, Color: color.NRGBA{0, 0xff, 0, 0x80}}}
 	// a prefix of a longer list: the slice the decoders are handed has spare capacity
 	all := make([]decode.DecodeOption, 2, 5)
 	all[0], all[1] = decode.WithPalette(s.Palette), decode.WithColorAt(2, color.NRGBA{0x80, 0x40, 0x20, 0x80})
@@ -130,10 +134,11 @@ var Bodies = []Body{
 		gen.Reset(ivg.DefaultViewBox, s.Palette)
 		err := gen.SetCircularGradient(0, 0, 8, 0, generate.GradientSpreadPad, []generate.GradientStop{
 			{Offset: 0, Color: color.Gray{0x20}}, {Offset: 0.5, Color: color.RGBA{0x80, 0, 0, 0x80}}, {Offset: 1, Color: color.NRGBA{0, 0xff, 0, 0x40}}})
+		err4 := gen.SetLinearGradient(-3, 0, 5, 1, generate.GradientSpreadRepeat, s.Stops)
 		gen.SetTransform(generate.Scale(2, 2), generate.Translate(-32, -32))
 		err2 := gen.SetPathData("M4,4 h10 v10 l-3,2 -4,-1z", 0)
 		b, err3 := e.Bytes()
-		return digest(err, err2, err3, fmt.Sprintf("%x", b))
+		return digest(err, err2, err3, err4, fmt.Sprintf("%x", b))
 	}},
 	{"disassemble", func(s *Shared, g int) string {
 		t, err := decode.Disassemble(s.Graphics[g])
